@@ -139,7 +139,7 @@ PROPS["C03"] = dict(
     pkg="./props/c03",
     level="fault_enumeration",
     rule=("(a) crash detection: 3-8 (thorough 3-14) real nodes with generated configuration; nodes start/join at generated instants; 1..n/2 victims crash "
-          "(Shutdown + address swallowing packets; dials refused or hanging) at generated instants incl. during formation; loss 0-15%, duplication, latency "
+          "(Shutdown + address swallowing packets; dials refused or hanging) at generated instants incl. during formation; optionally a second life (a victim restarts under the same name after being reaped, is relisted and crashes again); loss 0-15%, duplication, latency "
           "up to 20ms among survivors; in own-evidence mode every suspect/dead message naming a victim is removed from the wire and push/pull is off, so each "
           "survivor must detect alone. Oracle: every join event for a victim at a survivor is followed by a leave event no later than max(crash, join) + B, "
           "B = (2(n-1)+2)(A+1)P + D + SuspicionMaxTimeoutMult*SuspicionMult*max(1,log10 n)*P re-derived from the configuration; no survivor lists a victim at "
@@ -165,8 +165,7 @@ PROPS["C05"] = dict(
     pkg="./props/c05",
     level="fault_enumeration",
     rule=("3-7 (thorough 3-12) real nodes formed on a perfect network, then a fault phase of 8-45 virtual seconds with hash-drawn loss (0-40%), duplication, "
-          "delay up to 1.2 s (reordering), refused and cut streams, and up to 8 timed events: crash (host up or down), same-name same-address restart with "
-          "re-join, graceful leave followed by shutdown, UpdateNode, symmetric or asymmetric partitions and heals; then a perfect network and no operations. "
+          "delay up to 1.2 s (reordering), refused and cut streams, and up to 8 timed events: crash (host up or down), same-name same-address restart with re-join and new metadata (so the stale record conflicts at an equal incarnation), graceful leave followed by shutdown, UpdateNode, symmetric or asymmetric partitions and heals; then a perfect network and no operations. "
           "The connectivity precondition is evaluated on Members() of the live nodes when faults stop (false = counted, not checked). Oracle, polled every "
           "virtual second up to the cap n*B + 40 push/pull intervals + 30 s (then one more cap): every live node lists exactly the live set with the owner's "
           "current metadata and no live node is suspect/dead in any state dump; event logs replay to Members(). non-trivial = disagreement (membership, "
@@ -212,7 +211,7 @@ PROPS["C06"] = dict(
     rule=("one real node with 0-12 (thorough 0-38) healthy scripted peers (cluster size 2-40), SuspicionMult 1-8, SuspicionMaxTimeoutMult 1-8, probe interval "
           "200ms/1s; the suspicion of a subject starts from an injected accusation (exact start instant) or from the node's own failed probe (start = probe "
           "instant + interval); then a timed script of up to 8 acts - confirmations from distinct peers, repeats, the original accuser, the local node, the "
-          "subject, unknown names, at the current or an older incarnation; refutation; re-suspicion; third-party death; leave - at instants drawn 1-50 ms "
+          "subject, unknown names, at the current or an older incarnation; refutation; re-suspicion; third-party death; leave; rejoin at the same incarnation after a death (the script continues after a death) - at instants drawn 1-50 ms "
           "around every analytic deadline (min, max, the timeout after c=0..k confirmations) or uniformly. Oracle: exact-arithmetic model of k, min, max and "
           "the logarithmic schedule; the leave event for the subject must occur within 1 ms of the model's instant (timer expiry, confirmation driving the timer "
           "to zero, foreign death, leave) or never (refuted), and a timer death lies in [min, max] after the start of the suspicion that caused it. "
@@ -240,8 +239,7 @@ PROPS["C08"] = dict(
           "departure/death from the same address changes nothing; an alive from a different address never changes the address of an alive, suspect or "
           "recently-dead record (conflict callback with existing/other for newer claims); after a leave (immediately) or a death older than a positive reclaim "
           "time the claim is adopted (alive at the new address, one join event). Leaver role: the real node with 0-3 live peers, UpdateNode broadcasts pending, "
-          "accusations (suspect/dead/alive about itself) before, at the very virtual instant of (0-4 packets, offsets 0/+-1us/20us) and after Leave, repeated Leave: "
-          "every nil return implies own record left and, with a live peer in view, a self-signed dead sent to a live peer before the return; afterwards the node "
+          "accusations (suspect/dead/alive about itself) before, at the very virtual instant of (0-4 packets, offsets 0/+-1us/20us; also a held-lock schedule in which a delegate callback parks under the node lock while Leave and the claims queue behind it) and after Leave, repeated Leave: finality is judged on wire order and event order (after the self-signed dead leaves the node, no alive about itself and no join event for itself); every nil return implies own record left and, with a live peer in view, a self-signed dead sent to a live peer before the return; afterwards the node "
           "never lists itself again. non-trivial = determinate peer-role case / a Leave racing accusations or an accusation after Leave"),
     tests=[
         dict(name="peer", run="^TestLeaveFinalAndHijack$",
@@ -347,10 +345,9 @@ PROPS["C13"] = dict(
           "(a) mutations of 21 genuine message kinds applied before sealing (so they reach the inner decoders) or after (outer layer): byte substitution with "
           "msgpack/type-significant values, bit flips, truncation at any offset, extension up to 70000 bytes, splicing two messages, nesting compound/compress "
           "up to depth 40, 1/2/4-byte length fields set to extremes, unconstrained byte strings; streams are closed or left stalled by the sender; "
-          "(b) exhaustive sweep: truncation and 6 substitutions at every byte position (quick: every third) of every genuine plaintext <= 400 bytes, plain and "
-          "encrypted; (c) declared sizes beyond the caps (node count, user state, user message, encrypted frame length; also negative) followed by up to 1 MiB of "
+          "(b) exhaustive sweep: truncation and 6 substitutions at every byte position (quick: every third) of every genuine plaintext <= 400 bytes, plain and encrypted, plus every outer-layer cut point of every stream with the sender stalled; (c) declared sizes beyond the caps (node count, user state, user message, encrypted frame length; also negative) followed by up to 1 MiB of "
           "data; a 40 MiB+ decompression bomb as packet and stream; 0-300 stalled concurrent push/pulls; floods beyond HandoffQueueDepth while the handler is "
-          "blocked. Oracle: the process survives (every case is journalled first; a crash of the binary is attributed to it), every stream is closed by the node "
+          "blocked. Oracle: the process survives and no single delivery makes it allocate more than 512 MiB (every case is journalled first; a crash of the binary is attributed to it), every stream is closed by the node "
           "within its TCP timeout, afterwards the node answers a state dump and a ping, records/events/delegate payloads change only if some prefix-tolerant "
           "parse of a plaintext candidate names them, over-cap declarations consume at most the declaration plus two read buffers and deliver nothing, the cap "
           "on concurrent push/pulls and the queue depth hold; at the end the bubble exits (no goroutine left). non-trivial = input that gets past the outermost "
@@ -377,8 +374,7 @@ PROPS["C15"] = dict(
     title="Outbound confidentiality: nothing leaves unencrypted when encryption is enforced",
     pkg="./props/c15",
     level="exploration",
-    rule=("4-6 real nodes with a keyring (16/24/32-byte keys), outgoing verification on, label none/'conf', protocol versions 1-5 per node, compression on/off; "
-          "the history is built to reach every send site: probes with ack payloads, one node's inbound UDP cut for 2.5 s (indirect ping requests, relayed "
+    rule=("4-6 real nodes with a keyring (16/24/32-byte keys), outgoing verification on, label none/'conf', protocol versions 1-5 per node, compression on/off, optionally created with an empty keyring and keyed at run time before the first send; the history is built to reach every send site: probes with ack payloads, one node's inbound UDP cut for 2.5 s (indirect ping requests, relayed "
           "pings, nacks, TCP fallback pings and their acks; optionally its streams too so that suspicion, death and refutation traffic appears), "
           "SendBestEffort, SendReliable, user gossip, UpdateNode, join and periodic push/pull in both directions, plaintext and garbage streams from an outsider "
           "(error replies), a graceful leave, and optionally a key rotation in progress (new key installed everywhere at 4 s, each node switching at its own "
@@ -451,7 +447,7 @@ PROPS["C19"] = dict(
           "PMax 2-5, TCP pings on/off, subject PMax 2/3/5) probes a scripted subject 1-6 times; per probe the plan fixes, relative to that probe's own "
           "awareness-scaled deadline, the direct ack (none / before the probe timeout / between timeout and deadline / after the deadline, optionally "
           "duplicated), each helper's relayed ack (none / in time / late / wrong sequence number) and nack, the TCP fallback (refused / stalls / right or wrong "
-          "sequence number / late / garbage) and up to 4 foreign acks and nacks (unknown, previous-probe, other-node, 0 and 2^32-1 sequence numbers, from the "
+          "sequence number / late / garbage) duplicated and third-party nacks beyond the expected number, and up to 4 foreign acks and nacks (unknown, previous-probe, other-node, 0 and 2^32-1 sequence numbers, from the "
           "subject, a helper or a stranger). Oracle: the subject is suspected at the deadline iff no acknowledgement carrying this probe's number arrived in "
           "time by any of the three routes; indirect requests and TCP pings are only issued after the probe timeout; GetHealthScore equals a clamped counter "
           "model (-1 answered, +1 failed without nack-capable helpers, + expected - received nacks otherwise) after every probe. relay role: 1-6 indirect-ping "
@@ -483,8 +479,7 @@ PROPS["C20"] = dict(
           "virtual time only, two overlapping Leave calls. Oracle: no call panics, every call returns within its documented wait (Leave within timeout + 1 ms), "
           "repeated Shutdown returns nil, after Shutdown returns no packet, stream write or dial of the node reaches the network and attempts on the closed "
           "transport stop within one awareness-scaled probe interval, and the bubble exits (no goroutine of the node left) after that drain period. The "
-          "real-time variant releases 2-6 calls (incl. Leave || Leave, Shutdown || Shutdown, UpdateNode || UpdateNode) truly concurrently with 40 ms probe "
-          "intervals; both variants also run under the race detector. non-trivial = a concurrent group of >= 2 calls or a call at the left-and-reaped stage"),
+          "real-time variant releases 2-6 calls (incl. Leave || Leave, Shutdown || Shutdown, UpdateNode || UpdateNode) truly concurrently with 40 ms probe intervals on a transport whose Shutdown takes 15 ms (every return of Shutdown must find the transport closed); both variants also run under the race detector. non-trivial = a concurrent group of >= 2 calls or a call at the left-and-reaped stage"),
     tests=[
         dict(name="life", run="^TestLifecycle$", quick=dict(shards=10, checks=120, timeout=600), thorough=dict(shards=10, checks=5000, timeout=3400)),
         dict(name="life-race", run="^TestLifecycle$", race=True, quick=dict(shards=3, checks=25, timeout=900), thorough=dict(shards=3, checks=800, timeout=3400)),
@@ -504,7 +499,7 @@ PROPS["C09"] = dict(
           "compression, merge delegate (vetoes names starting with 'veto') and alive delegate (filters 'filt') on/off; remote state lists of 0-64 rows over "
           "a name pool with duplicates, the receiver itself and its members, all four states, incarnations around the held one, version vectors drawn "
           "byte-wise from {0,1,2,3,5,6,255} or short/absent, other addresses; user state 0-64 KiB; the direction towards the real node is cut at a "
-          "generated byte offset (0, 1, 2, 1%, 50%, 90%, 99%, last byte, anywhere) by reset / EOF / stall, or sealed under a foreign key, the wrong label, "
+          "generated byte offset (0, 1, 2, 1%, 50%, 90%, 99%, last byte, anywhere, and structural points: end of header, every row boundary, start/middle/last byte of the user state) by reset / EOF / stall, or sealed under a foreign key, the wrong label, "
           "sent in clear, or declares over-cap node counts / state sizes. Oracle: for every certain rejection cause (cut, authentication, cap, veto, two "
           "alive full-vector nodes whose current version lies outside the other's range) the node's state dump, Members(), event log and MergeRemoteState log "
           "are unchanged and Join returns an error with 0 successes; when Join reports success the joiner lists the host and every reported-alive row that "
